@@ -214,6 +214,32 @@ func race(script, file string, timeoutMs int, cover bool, sliced ...string) (str
 	return res, backend, total, outs
 }
 
+// stage1: most goals are decided at once by the primary solver or by e-matching alone; only the
+// others get the whole portfolio (slices and pre-instantiated scripts are built only then).
+func stage1(file string) (string, string, float64, []string, bool) {
+	ctx, cancel := context.WithCancel(context.Background())
+	defer cancel()
+	ch := make(chan raceResult, 2)
+	for _, vi := range []int{0, 1} {
+		v := &variants[vi]
+		go func() {
+			solverSem <- struct{}{}
+			defer func() { <-solverSem }()
+			c2, cc := context.WithTimeout(ctx, 2500*time.Millisecond)
+			defer cc()
+			r, out, dt := runSolverCtx(c2, v.cmd(file, 1200))
+			ch <- raceResult{v, r, out, dt}
+		}()
+	}
+	for k := 0; k < 2; k++ {
+		rr := <-ch
+		if rr.r == "unsat" || (rr.r == "sat" && !rr.v.proveOnly) {
+			return rr.r, rr.v.name, rr.dt, []string{fmt.Sprintf("--- %s: %s (%.2fs)\n%s", rr.v.name, rr.r, rr.dt, truncate(rr.out, 1500))}, true
+		}
+	}
+	return "", "", 0, nil, false
+}
+
 // discharge runs all obligations of all functions with a worker pool.
 // skipObl, when set, names obligations that are not sent to the solvers (quick tier: those the lock
 // records as unclaimed).
@@ -245,27 +271,13 @@ func discharge(results []*FuncResult, workers int, timeoutMs int, seed int, keep
 			// the full script (every assumption made before the obligation) is the only one whose
 			// "sat" answers are used; the sliced ones can only prove
 			j := job{fr: fr, o: o, id: len(jobs), script: fr.VC.script(o, -1)}
-			if !o.Cover {
-				j.script1 = fr.VC.script(o, 0)
-				j.script2 = fr.VC.script(o, 2)
-				if j.script2 == j.script1 {
-					j.script2 = ""
-				}
-				j.script3 = fr.VC.script(o, 1)
-				if j.script3 == j.script2 || j.script3 == j.script1 {
-					j.script3 = ""
-				}
-				if j.script1 == j.script {
-					j.script1 = ""
-				}
-			}
 			jobs = append(jobs, j)
 		}
 	}
 	verdicts := make([]*Verdict, len(jobs), len(jobs)+len(skipped))
 	var wg sync.WaitGroup
 	ch := make(chan job)
-	var mu sync.Mutex
+	var mu, genMu sync.Mutex
 	if workers > 4 {
 		workers = workers / 2 // each job races several solver processes; solverSem bounds the total
 	}
@@ -281,6 +293,40 @@ func discharge(results []*FuncResult, workers int, timeoutMs int, seed int, keep
 				tmo := timeoutMs
 				if j.o.Cover {
 					tmo = 1500
+				}
+				if !j.o.Cover && tmo > 1500 {
+					if r, backend, dt, outs, ok := stage1(file); ok {
+						v.TimeS, v.Backend = dt, backend
+						v.Output = strings.Join(outs, "\n")
+						if r == "unsat" {
+							v.Status = "discharged"
+							if dumpAll && keepDir != "" {
+								mu.Lock()
+								os.MkdirAll(keepDir, 0o755)
+								os.WriteFile(filepath.Join(keepDir, sanitize(j.o.Name)+".smt2"), []byte(script), 0o644)
+								mu.Unlock()
+							}
+							verdicts[j.id] = v
+							continue
+						}
+					}
+				}
+				// the sliced scripts share per-function caches: built under the function's lock
+				if !j.o.Cover {
+					genMu.Lock()
+					j.script1 = j.fr.VC.script(j.o, 0)
+					j.script2 = j.fr.VC.script(j.o, 2)
+					if j.script2 == j.script1 {
+						j.script2 = ""
+					}
+					j.script3 = j.fr.VC.script(j.o, 1)
+					if j.script3 == j.script2 || j.script3 == j.script1 {
+						j.script3 = ""
+					}
+					if j.script1 == j.script {
+						j.script1 = ""
+					}
+					genMu.Unlock()
 				}
 				// trigger-based pre-instantiation (see preinst.go) of the full script and of the
 				// smallest slice
